@@ -165,7 +165,10 @@ def check(ctx):
                 marks[(ub, None)] = "len"
             gf = GuardAnalysis(f, P, marks=marks, iter_marks=("w", "len"))
             bad = []
-            mine = [(src, head) for src, head in f.back_edges() if b in f.natural_loop(src, head)]  # the loop(s) over the references
+            # the loop over the references: every back edge to the head of a loop that contains the call (a `continue` is one more
+            # back edge to the same head)
+            heads = {head for src, head in f.back_edges() if b in f.natural_loop(src, head)}
+            mine = [(src, head) for src, head in f.back_edges() if head in heads]
             for src, head in mine:
                 for fs in gf.at(src):
                     if gf.count_of(fs, "w") != {1} or gf.count_of(fs, "len") != {1}:
